@@ -153,6 +153,8 @@ Qed.
 Definition gap_shape (i : nat) (g : gap) : Prop :=
   snd g = pow2 i /\ 0 <= fst g /\ fst g mod pow2 i = 0 /\ (i <= 5)%nat.
 
+Definition covered_by (x : Z) (l : list gap) : Prop := exists g, In g l /\ fst g <= x < fst g + snd g.
+
 Lemma add_gap_f_spec fuel : forall gs off sz,
   0 <= off -> length gs = 7%nat ->
   exists new,
@@ -160,18 +162,21 @@ Lemma add_gap_f_spec fuel : forall gs off sz,
     length (add_gap_f fuel gs off sz) = 7%nat /\
     (forall i g, In g (nth i (add_gap_f fuel gs off sz) []) -> In g (nth i gs []) \/ (In g new /\ gap_shape i g)) /\
     Forall (fun g => off <= fst g /\ fst g + snd g <= off + Z.max sz 0) new /\
-    pairwise disj new.
+    pairwise disj new /\
+    ((Z.to_nat sz <= fuel)%nat -> forall x, off <= x < off + sz -> covered_by x new).
 Proof.
   induction fuel; intros gs off sz Ho Hl; simpl.
-  - exists []. simpl. repeat split; auto.
+  - exists []. simpl. split; [auto|]. split; [auto|]. split; [auto|]. split; [auto|]. split; [auto|].
+    intros Hf x Hx. lia.
   - destruct (Z.leb_spec sz 0).
-    + exists []. simpl. repeat split; auto.
+    + exists []. simpl. split; [auto|]. split; [auto|]. split; [auto|]. split; [auto|]. split; [auto|].
+      intros Hf x Hx. lia.
     + destruct (gap_class off sz) as (gi, gsz) eqn:GC.
       destruct (gap_class_spec off sz gi gsz ltac:(lia) GC) as (E & R & M & L).
       set (gs1 := upd gi ((off, gsz) :: nth gi gs []) gs).
       assert (Hl1 : length gs1 = 7%nat) by (unfold gs1; rewrite upd_length; auto).
-      destruct (IHfuel gs1 (off + gsz) (sz - gsz) ltac:(lia) Hl1) as (new & P & L7 & In1 & F & PW).
-      exists ((off, gsz) :: new). repeat split; auto.
+      destruct (IHfuel gs1 (off + gsz) (sz - gsz) ltac:(lia) Hl1) as (new & P & L7 & In1 & F & PW & CV).
+      exists ((off, gsz) :: new). split; [|split; [auto|split; [|split; [|split]]]].
       * etransitivity; [apply P|].
         unfold gs1. rewrite !concat_flat_map.
         pose proof (flat_map_push_perm (fun x : list gap => x) gi (off, gsz) gs ltac:(lia) ltac:(intros; simpl; auto)) as Q.
@@ -183,7 +188,10 @@ Proof.
         -- right. split; [right; auto|auto].
       * constructor; simpl; [lia|].
         eapply Forall_impl; [|apply F]. simpl. intros g (A & B). lia.
-      * rewrite Forall_forall in *. intros g Hg. destruct (F g Hg). unfold disj; simpl. lia.
+      * simpl. split; auto. rewrite Forall_forall in *. intros g Hg. destruct (F g Hg). unfold disj; simpl. lia.
+      * intros Hf x Hx. destruct (Z.lt_ge_cases x (off + gsz)).
+        -- exists (off, gsz). simpl. split; auto. lia.
+        -- destruct (CV ltac:(lia) x ltac:(lia)) as (g & Hg & Cg). exists g. split; [right; auto|auto].
 Qed.
 
 Lemma add_gap_spec gs off sz :
@@ -193,11 +201,14 @@ Lemma add_gap_spec gs off sz :
     length (add_gap gs off sz) = 7%nat /\
     (forall i g, In g (nth i (add_gap gs off sz) []) -> In g (nth i gs []) \/ (In g new /\ gap_shape i g)) /\
     Forall (fun g => off <= fst g /\ fst g + snd g <= off + sz) new /\
-    pairwise disj new.
+    pairwise disj new /\
+    (forall x, off <= x < off + sz -> covered_by x new).
 Proof.
   intros Ho Hs Hl. unfold add_gap.
-  destruct (add_gap_f_spec (Z.to_nat sz) gs off sz Ho Hl) as (new & A & B & C & D & E).
-  exists new. repeat split; auto. rewrite Z.max_l in D by lia. auto.
+  destruct (add_gap_f_spec (Z.to_nat sz) gs off sz Ho Hl) as (new & A & B & C & D & E & F).
+  exists new. split; [auto|]. split; [auto|]. split; [auto|]. split; [|split; [auto|]].
+  - rewrite Z.max_l in D by lia. auto.
+  - apply F. lia.
 Qed.
 
 (* ---------------------------------------------------------------- the gap loop *)
@@ -556,7 +567,9 @@ Proof.
               Forall (fun g => psize p <= fst g /\ fst g + snd g <= psize p + diff) new /\ pairwise disj new).
     { unfold gs2. destruct (diff =? 0).
       - exists []. simpl. repeat split; auto. apply (inv_lg _ I).
-      - apply add_gap_spec; auto; try lia. apply (inv_lg _ I). }
+      - destruct (add_gap_spec (gaps p) (psize p) diff) as (new & A1 & A2 & A3 & A4 & A5 & _); auto; try lia.
+        { apply (inv_lg _ I). }
+        exists new. auto. }
     destruct X as (new & PG & LG & InG & FG & PWG).
     assert (Hsz' : psize p + diff + s <= 4294967296) by (inversion E; subst p'; simpl in Hsz; auto).
     pose proof (regions_bound p I) as RB. rewrite Forall_forall in RB, FG.
